@@ -10,7 +10,7 @@
    e_0 + sum_i s_i * e_i, whose coefficients are bounded by  u * (1 + sum_i ||s_i||_1)  (|(s*e)_t| <= ||s||_1 ||e||_inf):
    one unit per truncated column, reaching the phase through the secret.  u = 0 when nothing is truncated. *)
 From PV Require Import Base.MachineInt Model.Znx Model.Limbs Model.Flat Model.Ring Model.DftAbs Model.C02Ops
-                       Proofs.C02Poly Proofs.C02Exact Proofs.C02Phase.
+                       Proofs.C02Poly Proofs.C02Exact Proofs.C02Canon Proofs.C02Phase.
 Open Scope Z_scope.
 
 (* ---------------------------------------------------------------- plumbing: sequence, transpose *)
@@ -104,8 +104,23 @@ Proof.
     destruct Hx as (u & <- & Hu). apply HG. right. exact Hu.
 Qed.
 
+Lemma lval_zeros P b j (l : list Z) : (forall x, In x l -> x = 0) -> lval P b j l = 0.
+Proof.
+  revert j; induction l as [|x t IH]; intros j H; cbn [lval]; [reflexivity|].
+  rewrite (H x (or_introl eq_refl)). rewrite IH by (intros; apply H; right; assumption). lia.
+Qed.
+Lemma valp_vec_zero P b n (r0 : limbs) t : nthZ (valp P b n (vec_zero n r0)) t = 0.
+Proof.
+  destruct (Nat.lt_ge_cases t n) as [H|H].
+  - rewrite valp_nth by exact H. unfold val_of. apply lval_zeros. intros x Hx.
+    unfold coeff_limbs, vec_zero in Hx. rewrite map_map in Hx. apply in_map_iff in Hx.
+    destruct Hx as (l & <- & _). apply nthZ_zeros.
+  - apply nthZ_overflow. rewrite valp_length. exact H.
+Qed.
+
 Section Value.
 Variables (n : nat) (rb ab off keep sgn P u : Z).
+Variable ovz : bool.                                         (* zero-fill (true) or keep (false) the columns of res that a does not have *)
 Variable f : list Z -> list Z -> option (list Z).          (* per-coefficient kernel: limbs of a, prior limbs of res -> new limbs of res *)
 Variable guard : list Z -> list Z -> Prop.                   (* headroom precondition of the per-coefficient theorem *)
 Hypothesis Hu : 0 <= u.
@@ -179,14 +194,15 @@ Definition err_bound (ncols : nat) : Z :=
   u + lsum (fun i => l1norm (nth i s []) * (if Nat.ltb (S i) ncols then u else 0)) (seq 0 (length s)).
 
 Theorem colloop_phase_value res a r :
-  wf_glwe n res -> wf_glwe n a -> g_ncols a = g_ncols res ->
-  (forall i t, (i < g_ncols res)%nat -> (t < n)%nat -> guard (coeff_limbs (gcol a i) t) (coeff_limbs (gcol res i) t)) ->
-  colloop f n res a = Some r ->
+  wf_glwe n res -> wf_glwe n a -> (g_ncols a <= g_ncols res)%nat ->
+  ((g_ncols a < g_ncols res)%nat -> keep = if ovz then 0 else 1) ->
+  (forall i t, (i < g_ncols a)%nat -> (t < n)%nat -> guard (coeff_limbs (gcol a i) t) (coeff_limbs (gcol res i) t)) ->
+  colloop f ovz n res a = Some r ->
   forall t, exists E M,
     rel (nthZ (VP P rb n s r) t) (nthZ (VP P rb n s res) t) (nthZ (VP (P + off) ab n s a) t) E M /\
-    Z.abs E <= err_bound (g_ncols res).
+    Z.abs E <= err_bound (g_ncols a).
 Proof.
-  intros Hres Ha Hc Hg Hl t. unfold colloop, mapi_cols_opt in Hl.
+  intros Hres Ha Hc Hk Hg Hl t. unfold colloop, mapi_cols_opt in Hl.
   destruct (sequence _) as [cs|] eqn:E; [|discriminate]. injection Hl as <-.
   destruct (sequence_some _ _ E) as [Lcs Hn]. rewrite map_seq_length in Lcs.
   (* every column index, existing or not, satisfies the column relation *)
@@ -194,14 +210,20 @@ Proof.
   assert (Hcol : forall i, exists ev mv, length ev = n /\ length mv = n /\
             (forall t, rel (nthZ (valp P rb n (gcol r i)) t) (nthZ (valp P rb n (gcol res i)) t)
                            (nthZ (valp (P + off) ab n (gcol a i)) t) (nthZ ev t) (nthZ mv t)) /\
-            (forall t, Z.abs (nthZ ev t) <= if Nat.ltb i (g_ncols res) then u else 0)).
-  { intros i. change (gcol r i) with (nth i cs []). destruct (Nat.ltb_spec i (g_ncols res)) as [Hi|Hi].
-    - specialize (Hn i None [] ltac:(rewrite map_seq_length; exact Hi)).
-      rewrite nth_map_seq in Hn by exact Hi.
+            (forall t, Z.abs (nthZ ev t) <= if Nat.ltb i (g_ncols a) then u else 0)).
+  { intros i. change (gcol r i) with (nth i cs []). destruct (Nat.ltb_spec i (g_ncols a)) as [Hia|Hia].
+    - specialize (Hn i None [] ltac:(rewrite map_seq_length; lia)).
+      rewrite nth_map_seq in Hn by lia.
+      destruct (Nat.ltb_spec i (g_ncols a)) as [_|]; [|lia].
       apply (col_value _ _ _ Hn). intros t' Ht'. apply Hg; assumption.
     - exists (pzero n), (pzero n). repeat split; try apply pzero_length.
-      + intros t'. rewrite (nth_overflow cs) by lia. rewrite (gcol_out res), (gcol_out a) by lia.
-        unfold rel. rewrite !valp_nil, !nthZ_pzero. lia.
+      + intros t'. rewrite (gcol_out a) by lia. unfold rel. rewrite valp_nil, !nthZ_pzero.
+        destruct (Nat.lt_ge_cases i (g_ncols res)) as [Hi|Hi].
+        * specialize (Hn i None [] ltac:(rewrite map_seq_length; lia)).
+          rewrite nth_map_seq in Hn by lia.
+          destruct (Nat.ltb_spec i (g_ncols a)) as [|_]; [lia|]. injection Hn as Hn. rewrite <- Hn.
+          rewrite (Hk ltac:(lia)). destruct ovz; [rewrite valp_vec_zero|]; lia.
+        * rewrite (nth_overflow cs) by lia. rewrite (gcol_out res) by lia. rewrite !valp_nil. lia.
       + intros t'. rewrite nthZ_pzero. cbn. lia. }
   clearbody r.
   assert (Lp : forall (V : nat -> list Z), length (psum n (map (fun i => pmul (nth i s []) (V i)) (seq 0 (length s)))) = n)
@@ -218,16 +240,16 @@ Proof.
               (fun i => nthZ (pmul (nth i s []) (valp P rb n (gcol r (S i)))) t)
               (fun i => nthZ (pmul (nth i s []) (valp P rb n (gcol res (S i)))) t)
               (fun i => nthZ (pmul (nth i s []) (valp (P + off) ab n (gcol a (S i)))) t)
-              (fun i => l1norm (nth i s []) * (if Nat.ltb (S i) (g_ncols res) then u else 0))
+              (fun i => l1norm (nth i s []) * (if Nat.ltb (S i) (g_ncols a) then u else 0))
               (seq 0 (length s))) as (E1 & M1 & R1 & B1).
   { intros i Hi. destruct (Hcol (S i)) as (ev & mv & Le & Lm & Rr & Bb).
     assert (Li : length (nth i s []) = n) by (apply (sec_len n s Hs); apply nth_In; apply in_seq in Hi; lia).
     exists (nthZ (pmul (nth i s []) ev) t), (nthZ (pmul (nth i s []) mv) t). split.
     - apply pmul_rel; try assumption; apply valp_length.
-    - apply pmul_bound; [lia | destruct (Nat.ltb_spec (S i) (g_ncols res)); lia | exact Bb]. }
+    - apply pmul_bound; [lia | destruct (Nat.ltb_spec (S i) (g_ncols a)); lia | exact Bb]. }
   exists (nthZ ev0 t + E1), (nthZ mv0 t + M1). specialize (R0 t). specialize (B0 t).
   unfold rel in *. unfold err_bound. split; [lia|].
-  destruct (Nat.ltb_spec 0 (g_ncols res)); lia.
+  destruct (Nat.ltb_spec 0 (g_ncols a)); lia.
 Qed.
 
 End Value.
@@ -264,53 +286,65 @@ Proof.
   rewrite (map_seq_ext (fun i => f1 i (gcol g i)) (fun i => f2 i (gcol g i))) by exact H. reflexivity.
 Qed.
 
+Definition sn_src (opc : Z) (res a : glwe) : glwe := if sn_inplace opc then res else a.
+Definition sn_ovz (opc : Z) : bool := opc =? 15.
+
 Lemma exec_op_colloop n opc scr k res a b r : 13 <= opc <= 19 ->
-  (sn_inplace opc = false -> g_ncols a = g_ncols res) ->
+  wf_glwe n res -> wf_glwe n a ->
   exec_op opc n scr k res a b = Some r ->
-  colloop (sn_kernel opc (g_b res) (g_b a) k) n res (if sn_inplace opc then res else a) = Some r.
+  colloop (sn_kernel opc (g_b res) (g_b a) k) (sn_ovz opc) n res (sn_src opc res a) = Some r /\
+  (g_ncols (sn_src opc res a) <= g_ncols res)%nat /\
+  ((g_ncols (sn_src opc res a) < g_ncols res)%nat -> sn_keep opc = if sn_ovz opc then 0 else 1).
 Proof.
-  intros Ho Hc He.
+  intros Ho Hres Ha He.
+  pose proof (ncols_rank n res Hres) as Nr. pose proof (ncols_rank n a Ha) as Na.
+  assert (Hself : forall f g, (forall i, (i < g_ncols res)%nat -> g i (gcol res i) = col_coeff f n (gcol res i) (gcol res i)) ->
+            forall ovz, mapi_cols_opt res g = colloop f ovz n res res).
+  { intros f g Hg ovz. unfold colloop. apply mapi_cols_opt_ext. intros i Hi.
+    destruct (Nat.ltb_spec i (g_ncols res)); [apply Hg; exact Hi | lia]. }
   assert (Hcases : opc = 13 \/ opc = 14 \/ opc = 15 \/ opc = 16 \/ opc = 17 \/ opc = 18 \/ opc = 19) by lia.
-  destruct Hcases as [-> | [-> | [-> | [-> | [-> | [-> | ->]]]]]]; cbn [exec_op sn_kernel sn_inplace Z.eqb Pos.eqb orb] in *.
-  - unfold glwe_rsh in He. destruct (_ <=? _); [exact He | discriminate].
-  - unfold glwe_lsh_assign in He. destruct (_ <=? _); [exact He | discriminate].
-  - unfold glwe_lsh, glwe_lsh_gen in He. destruct (_ && _)%bool; [|discriminate]. rewrite <- He.
-    unfold colloop. apply mapi_cols_opt_ext. intros i Hi.
-    destruct (Nat.ltb_spec i (g_ncols a)); [reflexivity | specialize (Hc eq_refl); lia].
-  - unfold glwe_lsh_add, glwe_lsh_gen in He. destruct (_ && _)%bool; [|discriminate]. rewrite <- He.
-    unfold colloop. apply mapi_cols_opt_ext. intros i Hi.
-    destruct (Nat.ltb_spec i (g_ncols a)); [reflexivity | specialize (Hc eq_refl); lia].
-  - unfold glwe_lsh_sub, glwe_lsh_gen in He. destruct (_ && _)%bool; [|discriminate]. rewrite <- He.
-    unfold colloop. apply mapi_cols_opt_ext. intros i Hi.
-    destruct (Nat.ltb_spec i (g_ncols a)); [reflexivity | specialize (Hc eq_refl); lia].
-  - unfold glwe_normalize in He. destruct (_ && _)%bool; [exact He | discriminate].
-  - unfold glwe_normalize_assign in He. destruct (_ <=? _); [exact He | discriminate].
+  destruct Hcases as [-> | [-> | [-> | [-> | [-> | [-> | ->]]]]]];
+    unfold sn_src, sn_ovz; cbn [exec_op sn_kernel sn_inplace sn_keep Z.eqb Pos.eqb orb] in *.
+  - unfold glwe_rsh in He. destruct (_ <=? _); [|discriminate]. repeat split; try lia.
+    rewrite <- He. symmetry. apply Hself. intros; reflexivity.
+  - unfold glwe_lsh_assign in He. destruct (_ <=? _); [|discriminate]. repeat split; try lia.
+    rewrite <- He. symmetry. apply Hself. intros; reflexivity.
+  - unfold glwe_lsh, glwe_lsh_gen in He. destruct (_ && _)%bool eqn:E; [|discriminate]. split_andb E.
+    apply Nat.leb_le in E0. repeat split; [exact He | lia].
+  - unfold glwe_lsh_add, glwe_lsh_gen in He. destruct (_ && _)%bool eqn:E; [|discriminate]. split_andb E.
+    apply Nat.leb_le in E0. repeat split; [exact He | lia].
+  - unfold glwe_lsh_sub, glwe_lsh_gen in He. destruct (_ && _)%bool eqn:E; [|discriminate]. split_andb E.
+    apply Nat.leb_le in E0. repeat split; [exact He | lia].
+  - unfold glwe_normalize in He. destruct (_ && _)%bool eqn:E; [|discriminate]. split_andb E.
+    apply Nat.eqb_eq in E1. repeat split; try lia.
+    rewrite <- He. unfold colloop. apply mapi_cols_opt_ext. intros i Hi.
+    destruct (Nat.ltb_spec i (g_ncols a)); [reflexivity | lia].
+  - unfold glwe_normalize_assign in He. destruct (_ <=? _); [|discriminate]. repeat split; try lia.
+    rewrite <- He. symmetry. apply Hself. intros; reflexivity.
 Qed.
 
-(* shift / normalise at the GLWE level, from the per-column statement *)
+(* shift / normalise at the GLWE level, from the per-column statement; `a` may have a lower rank than res
+   (glwe_lsh zero-fills, glwe_lsh_add / glwe_lsh_sub keep the columns of res that a does not have) *)
 Theorem exec_op_phase_value n s opc scr k res a b r P u guard :
   13 <= opc <= 19 -> 0 <= u ->
-  column_value_stmt (g_b res) (if sn_inplace opc then g_b res else g_b a) (sn_off opc k) (sn_keep opc) (sn_sgn opc) P u
+  column_value_stmt (g_b res) (g_b (sn_src opc res a)) (sn_off opc k) (sn_keep opc) (sn_sgn opc) P u
                     (sn_kernel opc (g_b res) (g_b a) k) guard ->
   secret_ok n s -> wf_glwe n res -> wf_glwe n a ->
-  (sn_inplace opc = false -> g_ncols a = g_ncols res) ->
-  (forall i t, (i < g_ncols res)%nat -> (t < n)%nat ->
-     guard (coeff_limbs (gcol (if sn_inplace opc then res else a) i) t) (coeff_limbs (gcol res i) t)) ->
+  (forall i t, (i < g_ncols (sn_src opc res a))%nat -> (t < n)%nat ->
+     guard (coeff_limbs (gcol (sn_src opc res a) i) t) (coeff_limbs (gcol res i) t)) ->
   exec_op opc n scr k res a b = Some r ->
   forall t, exists E M,
     nthZ (VP P (g_b res) n s r) t =
       sn_keep opc * nthZ (VP P (g_b res) n s res) t +
-      sn_sgn opc * nthZ (VP (P + sn_off opc k) (if sn_inplace opc then g_b res else g_b a) n s (if sn_inplace opc then res else a)) t +
+      sn_sgn opc * nthZ (VP (P + sn_off opc k) (g_b (sn_src opc res a)) n s (sn_src opc res a)) t +
       E + M * 2 ^ P /\
-    Z.abs E <= err_bound u s (g_ncols res).
+    Z.abs E <= err_bound u s (g_ncols (sn_src opc res a)).
 Proof.
-  intros Ho Hu Hcv Hs Hres Ha Hc Hg He t.
-  pose proof (exec_op_colloop n opc scr k res a b r Ho Hc He) as Hl.
-  destruct (sn_inplace opc) eqn:Ei.
-  - exact (colloop_phase_value n (g_b res) (g_b res) (sn_off opc k) (sn_keep opc) (sn_sgn opc) P u _ guard Hu Hcv s Hs
-             res res r Hres Hres eq_refl Hg Hl t).
-  - exact (colloop_phase_value n (g_b res) (g_b a) (sn_off opc k) (sn_keep opc) (sn_sgn opc) P u _ guard Hu Hcv s Hs
-             res a r Hres Ha (Hc eq_refl) Hg Hl t).
+  intros Ho Hu Hcv Hs Hres Ha Hg He t.
+  destruct (exec_op_colloop n opc scr k res a b r Ho Hres Ha He) as (Hl & Hc & Hk).
+  assert (Wsrc : wf_glwe n (sn_src opc res a)) by (unfold sn_src; destruct (sn_inplace opc); assumption).
+  exact (colloop_phase_value n (g_b res) (g_b (sn_src opc res a)) (sn_off opc k) (sn_keep opc) (sn_sgn opc) P u (sn_ovz opc) _ guard
+           Hu Hcv s Hs res (sn_src opc res a) r Hres Wsrc Hc Hk Hg Hl t).
 Qed.
 
 (* ---------------------------------------------------------------- VP is the value of the limb-wise phase *)
@@ -427,7 +461,7 @@ End ValPhase.
 
 (* ---------------------------------------------------------------- the result of the column loop is well formed;
    the theorem stated on the value of the limb-wise phase *)
-Lemma colloop_wf f n res a r : wf_glwe n res -> colloop f n res a = Some r -> wf_glwe n r.
+Lemma colloop_wf f ovz n res a r : wf_glwe n res -> colloop f ovz n res a = Some r -> wf_glwe n r.
 Proof.
   intros (Hn & Hc & Hf) Hl. unfold colloop, mapi_cols_opt in Hl.
   destruct (sequence _) as [cs|] eqn:E; [|discriminate]. injection Hl as <-.
@@ -437,38 +471,43 @@ Proof.
   - unfold g_ncols. cbn [with_cols g_cols]. rewrite Lcs. exact Hc.
   - rewrite Forall_forall. intros c Hin. destruct (In_nth cs c [] Hin) as (i & Hi & <-).
     specialize (Hnth i None [] ltac:(rewrite map_seq_length; lia)).
-    rewrite nth_map_seq in Hnth by lia. unfold col_coeff in Hnth.
-    destruct (lift_coeff_some _ _ _ _ _ _ Hnth) as (cs' & Lcs' & -> & _).
-    assert (Hlen : length (gcol res i) = g_size res).
+    rewrite nth_map_seq in Hnth by lia.
+    assert (Hwc : wf_col n (g_size res) (gcol res i)).
     { rewrite Forall_forall in Hf. apply (Hf (gcol res i)). apply nth_In. unfold g_ncols in Lcs. lia. }
-    rewrite Hlen. split.
-    + unfold untranspose. apply map_seq_length.
-    + rewrite Forall_forall. intros l Hl. unfold untranspose in Hl. apply in_map_iff in Hl.
-      destruct Hl as (j & <- & _). rewrite map_length. exact Lcs'.
+    destruct (Nat.ltb i (g_ncols a)).
+    + unfold col_coeff in Hnth.
+      destruct (lift_coeff_some _ _ _ _ _ _ Hnth) as (cs' & Lcs' & -> & _).
+      rewrite (proj1 Hwc). split.
+      * unfold untranspose. apply map_seq_length.
+      * rewrite Forall_forall. intros l Hl. unfold untranspose in Hl. apply in_map_iff in Hl.
+        destruct Hl as (j & <- & _). rewrite map_length. exact Lcs'.
+    + injection Hnth as <-. destruct ovz; [|exact Hwc]. split.
+      * unfold vec_zero. rewrite map_length. apply Hwc.
+      * rewrite Forall_forall. intros l Hl. unfold vec_zero in Hl. apply in_map_iff in Hl.
+        destruct Hl as (x & <- & _). apply zeros_length.
 Qed.
 
 Theorem exec_op_phase_value_limbs n s opc scr k res a b r P u guard :
   13 <= opc <= 19 -> 0 <= u ->
-  column_value_stmt (g_b res) (if sn_inplace opc then g_b res else g_b a) (sn_off opc k) (sn_keep opc) (sn_sgn opc) P u
+  column_value_stmt (g_b res) (g_b (sn_src opc res a)) (sn_off opc k) (sn_keep opc) (sn_sgn opc) P u
                     (sn_kernel opc (g_b res) (g_b a) k) guard ->
   secret_ok n s -> wf_glwe n res -> wf_glwe n a ->
-  (sn_inplace opc = false -> g_ncols a = g_ncols res) ->
-  (forall i t, (i < g_ncols res)%nat -> (t < n)%nat ->
-     guard (coeff_limbs (gcol (if sn_inplace opc then res else a) i) t) (coeff_limbs (gcol res i) t)) ->
+  (forall i t, (i < g_ncols (sn_src opc res a))%nat -> (t < n)%nat ->
+     guard (coeff_limbs (gcol (sn_src opc res a) i) t) (coeff_limbs (gcol res i) t)) ->
   exec_op opc n scr k res a b = Some r ->
   wf_glwe n r /\
   forall t, exists E M,
     nthZ (valp P (g_b res) n (phase n s r)) t =
       sn_keep opc * nthZ (valp P (g_b res) n (phase n s res)) t +
-      sn_sgn opc * nthZ (valp (P + sn_off opc k) (if sn_inplace opc then g_b res else g_b a) n
-                              (phase n s (if sn_inplace opc then res else a))) t +
+      sn_sgn opc * nthZ (valp (P + sn_off opc k) (g_b (sn_src opc res a)) n (phase n s (sn_src opc res a))) t +
       E + M * 2 ^ P /\
-    Z.abs E <= err_bound u s (g_ncols res).
+    Z.abs E <= err_bound u s (g_ncols (sn_src opc res a)).
 Proof.
-  intros Ho Hu Hcv Hs Hres Ha Hc Hg He.
+  intros Ho Hu Hcv Hs Hres Ha Hg He.
   assert (Wr : wf_glwe n r).
-  { apply (colloop_wf _ n res _ r Hres (exec_op_colloop n opc scr k res a b r Ho Hc He)). }
+  { destruct (exec_op_colloop n opc scr k res a b r Ho Hres Ha He) as (Hl & _). apply (colloop_wf _ _ n res _ r Hres Hl). }
+  assert (Wsrc : wf_glwe n (sn_src opc res a)) by (unfold sn_src; destruct (sn_inplace opc); assumption).
   split; [exact Wr|]. intros t.
-  rewrite !value_of_phase; try assumption; [| destruct (sn_inplace opc); assumption].
+  rewrite !value_of_phase by assumption.
   apply (exec_op_phase_value n s opc scr k res a b r P u guard); assumption.
 Qed.
